@@ -133,7 +133,7 @@ def gen_history(t: Tape, idx: int, maxlen: int) -> dict:
         st = {"kind": kind, "bhk": t.weighted(BH_WEIGHTS, "h.bh")}
         mk = f"{m}s{k}"
         if kind in ("content", "content_dry", "cli_content", "atomic", "bad_both", "bad_path"):
-            st["text"] = docs.gen_doc(t, mk, t.pick(["canonical", "canonical", "frontmatter", "noenvelope"], "h.style"))
+            st["text"] = docs.gen_doc(t, mk, t.pick(["canonical", "canonical", "frontmatter", "noenvelope", "holo_repairable"], "h.style"))
             if kind == "atomic":
                 st["text"] = docs.canonical(st["text"])
         if kind == "bad_content":
@@ -165,7 +165,10 @@ def gen_history(t: Tape, idx: int, maxlen: int) -> dict:
     if t.flag(350, "h.args"):
         case["extra_args"] = t.pick([{"lenient": True}, {"schema": "META"}, {"schema": "NOPE", "debug_grammar": True},
                                      {"lenient": True, "parse_error_policy": "salvage"}, {"mutations": {"STATUS": "ACTIVE"}},
-                                     {"schema": "META", "grammar_hint": True, "lenient": True}], "h.argset")
+                                     {"schema": "META", "grammar_hint": True, "lenient": True},
+                                     {"schema": "TEST_HOLOGRAPHIC", "grammar_hint": True, "lenient": True},
+                                     {"schema": "TEST_HOLOGRAPHIC", "grammar_hint": True, "debug_grammar": True},
+                                     {"schema": "SKILL", "grammar_hint": True}], "h.argset")
     return case
 
 
@@ -222,11 +225,31 @@ def run_history(case: dict, stats: Stats | None = None) -> dict:
     root = fsmodel.fresh_root("h")
     TARGET = case.get("target") or globals()["TARGET"]
     spec = [("d", "sb", 0o755), ("f", "sb/other.oct.md", b"===O===\nX::1\n===END===\n", 0o644),
-            ("l", "sb/link.oct.md", "other.oct.md")]
+            ("l", "sb/link.oct.md", "other.oct.md"),
+            # everything a process might quietly write to lives INSIDE the snapshotted root: HOME (with the project's documented
+            # ~/.octave cache root), TMPDIR, XDG cache, the working directory
+            ("d", "home/.octave", 0o755), ("d", "home/.cache", 0o755), ("d", "tmp", 0o777), ("d", "cwd", 0o755)]
     if case["init"] is not None:
         spec.append(("f", TARGET, case["init"].encode(), case.get("fmode", 0o644)))
     fsmodel.build_tree(root, spec)
     target = os.path.join(root, TARGET)
+    env_old = {k_: os.environ.get(k_) for k_ in ("HOME", "TMPDIR", "XDG_CACHE_HOME", "XDG_CONFIG_HOME")}
+    cwd_old = os.getcwd()
+    os.environ.update(HOME=os.path.join(root, "home"), TMPDIR=os.path.join(root, "tmp"), XDG_CACHE_HOME=os.path.join(root, "home/.cache"),
+                      XDG_CONFIG_HOME=os.path.join(root, "home/.config"))
+    os.chdir(os.path.join(root, "cwd"))
+    try:
+        return _run_history(case, stats, root, target, TARGET)
+    finally:
+        os.chdir(cwd_old)
+        for k_, v_ in env_old.items():
+            if v_ is None:
+                os.environ.pop(k_, None)
+            else:
+                os.environ[k_] = v_
+
+
+def _run_history(case, stats, root, target, TARGET):
     viols = []
     log = []
     prev_hashes: list = []
@@ -285,13 +308,17 @@ def run_history(case: dict, stats: Stats | None = None) -> dict:
                                                                                "normalize_dry", "bad_content"):
             call["extra_args"] = case["extra_args"]
         # ---- run it under the seam (single actor: op log, no scheduling)
-        sim = seam.Simulation(root, Tape(values=[]), seam.Knobs())
+        sim = seam.Simulation(root, Tape(values=[]), seam.Knobs(), record_unscoped=True)
         a = sim.add_actor("c", make_call(call, root))
         sim.run()
         if sim.bypass:
             raise seam.HarnessError(f"seam bypass: {sim.bypass[:3]}")
         out = outcome_of(call, a)
         snap1 = fsmodel.snapshot(root)
+        outside_writes = [(n_, p_) for _, n_, p_, _ in sim.unscoped
+                          if (n_ in ("mkdir", "rmdir", "replace", "rename", "unlink", "remove", "chmod", "truncate", "symlink", "link", "utime")
+                              or (n_.startswith("open:") and any(c_ in n_[5:] for c_ in "wax+")))
+                          and not p_.startswith(("/dev/", "/proc/"))]
         d = fsmodel.diff(snap0, snap1)
         mut_ops = [op.brief(root) for op in a.ops if op.cls in seam.MUTATING_CLASSES]
         log.append([k, kind, st["bhk"], out.get("status"), out.get("code"), d])
@@ -314,6 +341,8 @@ def run_history(case: dict, stats: Stats | None = None) -> dict:
         if status == "error" or dry:
             if d:
                 V("inert", f"{kind} returned {out} but the file system changed: {d}", k)
+            elif outside_writes:
+                V("inert-outside", f"{kind} returned {out} but wrote OUTSIDE the sandbox: {outside_writes[:3]}", k)
             elif _ident(target) != ident0:
                 V("inert-touched", f"{kind} returned {out}; the target's bytes are the same but it was rewritten or touched "
                                    f"(inode/mtime {ident0} -> {_ident(target)})", k)
